@@ -14,7 +14,6 @@ import (
 	"sort"
 	"strings"
 	"testing"
-	"testing/synctest"
 	"time"
 
 	"verif/simrt"
@@ -23,9 +22,9 @@ import (
 // Violation is one oracle failure of one run.
 type Violation struct {
 	Property string `json:"property"`
-	Class    string `json:"class"`            // stable violation class, used by the shrinker to keep "the same" failure
-	Sig      string `json:"sig,omitempty"`    // signature for known-finding matching (class + history-shape predicate)
-	Msg      string `json:"msg"`              // human readable detail
+	Class    string `json:"class"`         // stable violation class, used by the shrinker to keep "the same" failure
+	Sig      string `json:"sig,omitempty"` // signature for known-finding matching (class + history-shape predicate)
+	Msg      string `json:"msg"`           // human readable detail
 }
 
 // Result is what one simulated run reports.
@@ -53,6 +52,7 @@ type Result struct {
 	Pairs      [][2]uint32       `json:"-"`
 	Points     []uint32          `json:"-"`
 	Extra      map[string]string `json:"extra,omitempty"`
+	Race       bool              `json:"race,omitempty"` // produced by a race-detector build
 }
 
 // Run is the context an engine gets for one simulated execution.
@@ -61,6 +61,7 @@ type Run struct {
 	Tape   *simrt.Tape
 	Sim    *simrt.Sim
 	Res    *Result
+	Eng    Engine
 	Detail bool // record full history / schedule (replay, shrink output)
 	hist   []string
 	hh     interface{ Write([]byte) (int, error) }
@@ -68,13 +69,21 @@ type Run struct {
 }
 
 // Cfg draws a configuration/workload choice.
+//
+//go:norace
 func (r *Run) Cfg(n int) int { return r.Tape.Draw(simrt.StCfg, n) }
 
 // CfgPick picks one of the given durations.
+//
+//go:norace
 func CfgPick[T any](r *Run, xs ...T) T { return xs[r.Cfg(len(xs))] }
 
 // Log appends a line to the run's event log (hashed for the determinism self-test, kept in replays).
+//
+//go:norace
 func (r *Run) Log(format string, a ...any) {
+	simrt.HarnessAcquire()
+	defer simrt.HarnessRelease()
 	line := fmt.Sprintf(format, a...)
 	r.hh.Write([]byte(line))
 	r.hh.Write([]byte{'\n'})
@@ -84,7 +93,11 @@ func (r *Run) Log(format string, a ...any) {
 }
 
 // Violate records an oracle failure.
+//
+//go:norace
 func (r *Run) Violate(prop, class, sig, format string, a ...any) {
+	simrt.HarnessAcquire()
+	defer simrt.HarnessRelease()
 	for _, v := range r.Res.Violations {
 		if v.Property == prop && v.Class == class && v.Sig == sig {
 			return
@@ -94,10 +107,22 @@ func (r *Run) Violate(prop, class, sig, format string, a ...any) {
 }
 
 // Fault counts an injected fault that actually fired.
-func (r *Run) Fault(kind string) { r.Res.Faults[kind]++ }
+//
+//go:norace
+func (r *Run) Fault(kind string) {
+	simrt.HarnessAcquire()
+	r.Res.Faults[kind]++
+	simrt.HarnessRelease()
+}
 
 // Probe counts a reached rare condition.
-func (r *Run) Probe(kind string) { r.Res.Probes[kind]++ }
+//
+//go:norace
+func (r *Run) Probe(kind string) {
+	simrt.HarnessAcquire()
+	r.Res.Probes[kind]++
+	simrt.HarnessRelease()
+}
 
 // Engine is implemented by every engine package.
 type Engine interface {
@@ -107,10 +132,12 @@ type Engine interface {
 }
 
 // RunOne performs one simulated execution of e under tape.
+//
+//go:norace
 func RunOne(t *testing.T, e Engine, tape *simrt.Tape, detail bool) (res *Result) {
-	res = &Result{Seed: tape.Seed, Engine: e.Name(), Faults: map[string]int{}, Probes: map[string]int{}, Config: map[string]any{}}
+	res = &Result{Seed: tape.Seed, Race: simrt.RaceEnabled, Engine: e.Name(), Faults: map[string]int{}, Probes: map[string]int{}, Config: map[string]any{}}
 	h := sha256.New()
-	r := &Run{T: t, Tape: tape, Res: res, Detail: detail, hh: h, hsum: func() []byte { return h.Sum(nil) }}
+	r := &Run{T: t, Tape: tape, Res: res, Eng: e, Detail: detail, hh: h, hsum: func() []byte { return h.Sum(nil) }}
 	var bodyPanic any
 	var bodyStack string
 	if p, ok := e.(interface{ Pre(*Run) }); ok {
@@ -130,7 +157,7 @@ func RunOne(t *testing.T, e Engine, tape *simrt.Tape, detail bool) (res *Result)
 				bodyStack = string(debug.Stack())
 			}
 		}()
-		synctest.Test(t, func(t *testing.T) {
+		bubble(t, func(t *testing.T) {
 			defer func() {
 				if p := recover(); p != nil {
 					bodyPanic = p
@@ -190,26 +217,27 @@ type Spec struct {
 
 // Summary is the last line a worker writes.
 type Summary struct {
-	Summary      bool           `json:"summary"`
-	Runs         int            `json:"runs"`
-	WallSec      float64        `json:"wall_sec"`
-	Steps        int64          `json:"steps"`
-	SimNs        int64          `json:"sim_ns"`
-	Outcomes     map[string]int `json:"outcomes"`
-	Faults       map[string]int `json:"faults"`
-	Probes       map[string]int `json:"probes"`
-	Sigs         []string       `json:"sigs"`
-	NonTrivial   int            `json:"nontrivial_distinct"`
-	Pairs        [][2]uint32    `json:"pairs"`
-	Points       []uint32       `json:"points"`
-	Ops          int64          `json:"ops"`
-	ViolRuns     int            `json:"viol_runs"`
-	NextSeed     int64          `json:"next_seed"`
-	FirstSeed    int64          `json:"first_seed"`
-	LastSeed     int64          `json:"last_seed"`
-	Restart      bool           `json:"restart,omitempty"` // stopped early to be continued by a fresh process
-	Hashes       string         `json:"hashes,omitempty"` // hash-of-hashes for determinism mode
-	PerSeedHash  map[string]string `json:"per_seed_hash,omitempty"`
+	Summary     bool              `json:"summary"`
+	Runs        int               `json:"runs"`
+	WallSec     float64           `json:"wall_sec"`
+	Steps       int64             `json:"steps"`
+	SimNs       int64             `json:"sim_ns"`
+	Outcomes    map[string]int    `json:"outcomes"`
+	Faults      map[string]int    `json:"faults"`
+	Probes      map[string]int    `json:"probes"`
+	Sigs        []string          `json:"sigs"`
+	NonTrivial  int               `json:"nontrivial_distinct"`
+	Pairs       [][2]uint32       `json:"pairs"`
+	Points      []uint32          `json:"points"`
+	Ops         int64             `json:"ops"`
+	ViolRuns    int               `json:"viol_runs"`
+	NextSeed    int64             `json:"next_seed"`
+	FirstSeed   int64             `json:"first_seed"`
+	LastSeed    int64             `json:"last_seed"`
+	Restart     bool              `json:"restart,omitempty"` // stopped early to be continued by a fresh process
+	Race        bool              `json:"race,omitempty"`    // this worker is a race-detector build
+	Hashes      string            `json:"hashes,omitempty"`  // hash-of-hashes for determinism mode
+	PerSeedHash map[string]string `json:"per_seed_hash,omitempty"`
 }
 
 // ReplayFile is the on-disk format of a failure report.
@@ -230,6 +258,8 @@ type ReplayFile struct {
 }
 
 // Worker is the entry point of the engine's TestWorker.
+//
+//go:norace
 func Worker(t *testing.T, e Engine) {
 	raw := os.Getenv("VERIF_SPEC")
 	if raw == "" {
@@ -269,8 +299,16 @@ func Worker(t *testing.T, e Engine) {
 	default:
 		t.Fatalf("unknown mode %q", spec.Mode)
 	}
+	if simrt.RaceEnabled {
+		// the testing package fails a test during which the detector reported anything; the reports
+		// have been judged run by run (race.go), so leave before it looks
+		w.Flush()
+		f.Close()
+		os.Exit(0)
+	}
 }
 
+//go:norace
 func readReplay(t *testing.T, path string) *ReplayFile {
 	b, err := os.ReadFile(path)
 	if err != nil {
@@ -283,9 +321,10 @@ func readReplay(t *testing.T, path string) *ReplayFile {
 	return &rf
 }
 
+//go:norace
 func explore(t *testing.T, e Engine, spec Spec, enc *json.Encoder, w *bufio.Writer) {
 	start := time.Now()
-	sum := Summary{Summary: true, Outcomes: map[string]int{}, Faults: map[string]int{}, Probes: map[string]int{}, FirstSeed: spec.SeedStart}
+	sum := Summary{Summary: true, Race: simrt.RaceEnabled, Outcomes: map[string]int{}, Faults: map[string]int{}, Probes: map[string]int{}, FirstSeed: spec.SeedStart}
 	sigs := map[string]struct{}{}
 	pairs := map[[2]uint32]struct{}{}
 	points := map[uint32]struct{}{}
@@ -396,6 +435,7 @@ func explore(t *testing.T, e Engine, spec Spec, enc *json.Encoder, w *bufio.Writ
 	w.Flush()
 }
 
+//go:norace
 func memLimit() uint64 {
 	if v := os.Getenv("VERIF_WORKER_MEM_MB"); v != "" {
 		var n uint64
@@ -407,6 +447,8 @@ func memLimit() uint64 {
 }
 
 // hasClass reports whether res shows a violation of (prop, class).
+//
+//go:norace
 func hasClass(res *Result, prop, class, sig string) *Violation {
 	for i, v := range res.Violations {
 		if v.Property == prop && v.Class == class && (sig == "" || v.Sig == sig) {
@@ -417,6 +459,8 @@ func hasClass(res *Result, prop, class, sig string) *Violation {
 }
 
 // Shrink minimises the tape of a failing run while the same violation class persists.
+//
+//go:norace
 func Shrink(t *testing.T, e Engine, rf *ReplayFile, budgetSec float64) *ReplayFile {
 	if budgetSec <= 0 {
 		budgetSec = 60
@@ -527,6 +571,7 @@ func Shrink(t *testing.T, e Engine, rf *ReplayFile, budgetSec float64) *ReplayFi
 	return out
 }
 
+//go:norace
 func cloneTape(t [][]uint32) [][]uint32 {
 	out := make([][]uint32, len(t))
 	for i := range t {
@@ -535,6 +580,7 @@ func cloneTape(t [][]uint32) [][]uint32 {
 	return out
 }
 
+//go:norace
 func tapeLen(t [][]uint32) int {
 	n := 0
 	for _, s := range t {
@@ -544,6 +590,8 @@ func tapeLen(t [][]uint32) int {
 }
 
 // trimTo keeps, per stream, only what the run consumed, dropping trailing zeros (implied).
+//
+//go:norace
 func trimTo(cand, consumed [][]uint32) [][]uint32 {
 	out := make([][]uint32, len(cand))
 	for i := range cand {
@@ -561,12 +609,17 @@ func trimTo(cand, consumed [][]uint32) [][]uint32 {
 }
 
 // Start creates the simulation for this run (call from the bubble root, after drawing the configuration).
+//
+//go:norace
 func (r *Run) Start(cfg simrt.Config) *simrt.Sim {
+	raceMark()
 	r.Sim = simrt.New(r.Tape, cfg)
 	return r.Sim
 }
 
 // Finish records the scheduler's verdict and tears the simulation down.
+//
+//go:norace
 func (r *Run) Finish(out simrt.Outcome) {
 	r.Res.Outcome = out.Kind.String()
 	r.Res.Detail = out.Detail
@@ -574,10 +627,15 @@ func (r *Run) Finish(out simrt.Outcome) {
 		r.Res.Outcome = "harness-panic" // the simulator lost track of the system: harness trouble, never a violation
 	}
 	r.Res.SimNs = int64(r.Sim.Now())
+	if rp, ok := r.Eng.(interface{ RaceProps() []string }); ok {
+		r.judgeRaces(rp.RaceProps())
+	}
 	r.Sim.Finish()
 }
 
 // DrawSched draws the common scheduler parameters (swarm).
+//
+//go:norace
 func (r *Run) DrawSched(timeSteps []time.Duration, maxIdle time.Duration, maxSteps int) simrt.Config {
 	c := simrt.Config{MaxSteps: maxSteps, MaxIdle: maxIdle, TimeSteps: timeSteps}
 	c.YieldDenom = []int{1, 1, 2, 4}[r.Cfg(4)]
